@@ -2,9 +2,12 @@
 from vlib.framework import PUnit, LUnit, BUnit
 from bounded import b_seq as B
 from contracts import sequences as S
+from contracts import metamol_init as MI
 
 P_UNITS = [PUnit("seq-option-linear-chain", S.CONTRACTS, S.REG),
            PUnit("file-reader-linear-chain", [S.LINEAR_NX], S.REG2),
+           PUnit("metamolecule-constructor", MI.CONTRACTS, MI.REG),
+           LUnit("constructor-contract-is-init-postcondition", S.lemma_ctor_alias),
            LUnit("prefix-sum-monotone", S.lemma_ps_monotone)]
 
 
